@@ -60,7 +60,7 @@ func (f Slice) remove(value any) (out any, changed bool) {
 		end = f[1]
 	}
 	if 2 < len(f) {
-		step = f[2]
+		step = boundStep(f[2])
 	}
 	switch tv := value.(type) {
 	case []any:
@@ -225,7 +225,7 @@ func (f Slice) removeOne(value any) (out any, changed bool) {
 		end = f[1]
 	}
 	if 2 < len(f) {
-		step = f[2]
+		step = boundStep(f[2])
 	}
 	switch tv := value.(type) {
 	case []any:
@@ -398,7 +398,7 @@ func (f Slice) startEndStep(size int) (start, end, step int) {
 		end = f[1]
 	}
 	if 2 < len(f) {
-		step = f[2]
+		step = boundStep(f[2])
 		if step == 0 {
 			return
 		}
@@ -649,4 +649,18 @@ func (f Slice) Walk(rest, path Expr, nodes []any, cb func(path Expr, nodes []any
 			Nth(i).Walk(rest, path, nodes, cb)
 		}
 	}
+}
+
+// boundStep keeps a slice step within half the int range so that adding it
+// to a valid index can not overflow. Any step of that magnitude selects the
+// start element only.
+func boundStep(step int) int {
+	const maxStep = int(^uint(0)>>1) / 2
+	if maxStep < step {
+		return maxStep
+	}
+	if step < -maxStep {
+		return -maxStep
+	}
+	return step
 }
